@@ -22,7 +22,7 @@ from spec import xmlref
 
 from spyne import Application, ServiceBase, rpc, Fault
 from spyne.model.binary import ByteArray
-from spyne.model.complex import ComplexModel, Array, XmlAttribute
+from spyne.model.complex import ComplexModel, Array, XmlAttribute, XmlData
 from spyne.model.primitive import (Integer, Unicode, Decimal, Double, Boolean, DateTime, Date, Duration, Uuid, Integer32)
 from spyne.protocol.soap import Soap11, Soap12
 from spyne.protocol.xml import XmlDocument
@@ -170,6 +170,21 @@ class Sub2(ForeignBase):
     own = Integer
 
 
+class Amount(ComplexModel):
+    """an element with character content (XmlData) and an attribute: <amount unit="kg">0</amount>"""
+    __namespace__ = TNS
+    value = XmlData(Decimal)
+    unit = XmlAttribute(Unicode)
+    ratio = XmlAttribute(Decimal)          # attributes of types whose text form is not the native value
+    since = XmlAttribute(Date)
+
+
+class Flag(ComplexModel):
+    __namespace__ = TNS
+    on = XmlData(Boolean)
+    count = XmlAttribute(Integer)
+
+
 class Outer(ComplexModel):
     __namespace__ = TNS
     n = Integer
@@ -183,6 +198,12 @@ class Outer(ComplexModel):
     amount = Decimal
     code = XmlAttribute(Integer)
     must = Integer(min_occurs=1, nillable=True)
+    amount2 = Amount
+    flag = Flag
+    # constrained members: conformant values (also non-ASCII ones) pass every validator
+    word = Unicode(pattern=u'\\w+', max_len=10)
+    digits = Unicode(pattern=u'\\d{2,4}')
+    small = Integer(ge=0, le=10)
 
 
 class Hdr(ComplexModel):
@@ -242,7 +263,21 @@ PRIM_VALUES = [
     dict(i=-2 ** 63, u='line1\nline2\ttab', d=decimal.Decimal('0.000001'), b=False, f=123456789.125,
          t=dt.datetime(2024, 2, 29, 1, 2, 3, 999999, pytz.FixedOffset(-1)), a=dt.date(2024, 2, 29), y=[b''],
          r=dt.timedelta(seconds=86399), z=uuid.UUID(int=1)),
+    # a body of several transport blocks (the WSGI transport reads 8 KiB at a time): 3-byte characters, so that whatever
+    # precedes the text at least two of the block boundaries at 8192 / 16384 / 24576 fall inside a character
+    dict(i=1, u=u'\u4e2d' * 9000, d=decimal.Decimal('1'), b=True, f=1.0, t=dt.datetime(2020, 1, 1, 0, 0, 0), a=dt.date(2020, 1, 1),
+         y=[b'x' * 5000, b'y' * 5000], r=dt.timedelta(1), z=uuid.UUID(int=5)),
 ]
+
+
+GENERATED = 60      # thorough tier: that many more value vectors, generated from VERIF_SEED (spec/gen.py)
+
+
+def prim_values(c, k):
+    if k < len(PRIM_VALUES):
+        return PRIM_VALUES[k]
+    from spec import gen
+    return gen.prim_vector(c.seed, k)
 
 
 def _shared():
@@ -255,12 +290,24 @@ def outer_values():
     return [
         Outer(n=1, inner=Inner(x=1, s='a', t='attr'), items=[Inner(x=1, s='a'), Inner(x=2)], tags=['p', 'q'],
               when=dt.datetime(2020, 1, 1, 0, 0, 0, 0, TZ), amount=decimal.Decimal('1.50'), code=7, must=5,
-              sub=Sub(x=9, s='s', extra=3), sub2=Sub2(fb=1, fs='f', own=2)),
-        Outer(must=None),
+              sub=Sub(x=9, s='s', extra=3), sub2=Sub2(fb=1, fs='f', own=2), amount2=Amount(value=decimal.Decimal('12.5'), unit='kg', ratio=decimal.Decimal('0.50'), since=dt.date(2020, 2, 29)),
+              flag=Flag(on=True, count=3), word=u'Gr\xf6\xdfe', digits=u'\u0661\u0662\u0663', small=10),
+        Outer(must=None, amount2=Amount(value=decimal.Decimal('0'), unit='g', ratio=decimal.Decimal('0')), flag=Flag(on=False, count=0),
+              word=u'\u6771\u4eac', digits=u'0123', small=0),
         Outer(n=0, inner=Inner(), items=[], tags=[], must=0, sub=Sub(extra=0)),
         Outer(n=-5, items=[Inner(x=None, s=''), Inner(x=2 ** 64, s=u'\xe9', t='')], tags=['only'], code=0, must=1),
         _shared(),
     ]
+
+
+def return_forms():
+    """(what the function returns, the value it denotes): a complex return value may be given as an instance, as a
+    sequence aligned with the members (ancestors first; shorter = the rest unset) or as a dict (get_serialization_instance)"""
+    return [((1, 's', 't', 2), Sub(x=1, s='s', t='t', extra=2)),
+            ([4, 'base-only'], Sub(x=4, s='base-only')),
+            ({'extra': 5, 'x': 6}, Sub(x=6, extra=5)),
+            ((), Sub()),
+            (Sub(x=7, extra=8), Sub(x=7, extra=8))]
 
 
 def _services(got):
@@ -281,6 +328,11 @@ def _services(got):
             # values built by the function itself (several byte chunks, not what a decoder delivered)
             got.append(('produce', (which,), ctx.in_header))
             return tuple(PRIM_VALUES[which][k] for k, _ in PRIMS)
+
+        @rpc(Integer, _returns=Sub)
+        def forms(ctx, which):
+            got.append(('forms', (which,), ctx.in_header))
+            return return_forms()[which][0]
 
         @rpc(RenamedSub, _returns=RenamedSub)
         def renamed(ctx, r):
@@ -332,9 +384,10 @@ def _mk_roundtrip(family, validator):
     @obligation('C01.roundtrip.%s.%s' % (family, validator or 'none'),
                 targets=['spyne.protocol.xml:XmlDocument.deserialize', 'spyne.protocol.xml:XmlDocument.serialize',
                          'spyne.protocol.soap.soap11:Soap11.deserialize', 'spyne.protocol.soap.soap11:Soap11.serialize'],
-                bounded="6 signatures (10 primitives with 5 boundary value vectors, nested/inherited/attribute-carrying "
-                        "complex type with 4 values, wrapped/unwrapped/complex arrays with 5 values, no arguments, bare and "
-                        "out_bare body styles) x with/without SOAP header",
+                bounded="10 signatures (10 primitives with 5 boundary value vectors, nested/inherited/attribute-carrying "
+                        "complex type with 5 values, wrapped/unwrapped/complex arrays with 5 values, no arguments, bare and "
+                        "out_bare body styles, values built by the function, renamed members, a derived complex return "
+                        "value given as instance / full or partial sequence / dict) x with/without SOAP header x comments",
                 desc="a request built by the independent reference encoder invokes the user function exactly once with "
                      "equal values; the response read by the independent reference decoder denotes exactly the values "
                      "returned (absent = None, empty unwrapped sequence = None, empty bytes = None)")
@@ -343,14 +396,16 @@ def _mk_roundtrip(family, validator):
         inp, outp = _proto(family, validator)
         app = Application([_services(got)], TNS, name='VApp', in_protocol=inp, out_protocol=outp)
         wsgi = WsgiApplication(app)
-        meth = c.choose(['prims', 'struct', 'arrays', 'nothing', 'bare', 'outbare', 'shared', 'produce', 'renamed'], 'method')
+        meth = c.choose(['prims', 'struct', 'arrays', 'nothing', 'bare', 'outbare', 'shared', 'produce', 'renamed', 'forms'], 'method')
         d = app.interface.service_method_map['{%s}%s' % (TNS, meth)][0]
-        if meth == 'renamed':
+        if meth == 'forms':
+            args = [c.choose(list(range(len(return_forms()))), 'values')]
+        elif meth == 'renamed':
             args = [renamed_values()[c.choose([0, 1, 2, 3], 'values')]]
         elif meth == 'produce':
             args = [c.choose(list(range(len(PRIM_VALUES))), 'values')]
         elif meth == 'prims':
-            vals = PRIM_VALUES[c.choose(list(range(len(PRIM_VALUES))), 'values')]
+            vals = prim_values(c, c.choose(list(range(len(PRIM_VALUES) + (GENERATED if c.thorough else 0))), 'values'))
             args = [vals[k] for k, _ in PRIMS]
         elif meth in ('struct', 'bare'):
             args = [outer_values()[c.choose([0, 1, 2, 3, 4], 'values')]]
@@ -362,6 +417,9 @@ def _mk_roundtrip(family, validator):
             args = []
         with_header = family != 'xml' and c.choose([False, True], 'with_header')
         in_ti = d.in_message._type_info
+        # the request may spell its values with other literals of the same lexical space ('1' for true, '+05', a decimal
+        # with a sign or a trailing zero, base64 broken into lines, 'Z' for +00:00)
+        xmlref.VARIANT[0] = meth in ('prims', 'struct', 'arrays') and c.choose(['canonical', 'other_literals'], 'lexical_form') == 'other_literals'
         root = etree.Element('{%s}%s' % (TNS, meth), nsmap={'tns': TNS, 'xsi': XSI})
         if meth == 'bare':
             # bare: the message element *is* the argument
@@ -372,6 +430,7 @@ def _mk_roundtrip(family, validator):
         else:
             for (k, ft), v in zip(in_ti.items(), args):
                 xmlref.encode_into(root, ft, v, k, TNS)
+        xmlref.VARIANT[0] = False
         with_comments = c.choose([False, True], 'comments_in_request')
         if with_comments:
             # comments may appear anywhere in a schema-valid document: inside simple content, between members and
@@ -453,6 +512,8 @@ def _mk_roundtrip(family, validator):
                 rets = [o, [o.inner] * 3]
             if meth == 'produce':
                 rets = [PRIM_VALUES[args[0]][k] for k, _ in PRIMS]
+            if meth == 'forms':
+                rets = [return_forms()[args[0]][1]]
             for (k, t), ret in zip(out_ti.items(), rets):
                 try:
                     dec = xmlref.decode_from(rmsg, t, k, TNS)
